@@ -25,7 +25,7 @@ PY = "/venv/bin/python"
 os.environ.setdefault("PYTHONHASHSEED", "0")
 os.environ["PYTHONDONTWRITEBYTECODE"] = "1"
 sys.dont_write_bytecode = True
-for _k in ("VIRTUAL_ENV", "CONDA_PREFIX", "PYTHONSTARTUP", "DJANGO_SETTINGS_MODULE"):
+for _k in ("VIRTUAL_ENV", "CONDA_PREFIX", "PYTHONSTARTUP", "DJANGO_SETTINGS_MODULE", "PYTHONPATH"):
     os.environ.pop(_k, None)
 
 
